@@ -24,7 +24,7 @@ zvars == <<tcfg, tfd, tq, due, got, mustTcp, cseq>>
 
 ZInit == /\ tcfg = [igntc |-> 0, tcpfail |-> FALSE] /\ tfd = <<>> /\ tq = <<>> /\ due = {} /\ got = {} /\ mustTcp = {} /\ cseq = <<>>
 
-SameQ(rec, p) == /\ p.qt = rec.qt /\ p.qc = 1
+SameQ(rec, p) == /\ p.qt = rec.qt /\ p.qc = rec.qc
                  /\ IF tcfg.dns0x20 = 1 /\ ~rec.tcp THEN p.name = rec.name ELSE p.lname = rec.lname
 (* an answer that ends the query successfully, read completely from fd *)
 FinalAnswer(fd, p) ==
